@@ -380,6 +380,10 @@ impl Method {
         };
 
         let body = self.body.to_doc(goenv);
+        let ret_ty = match &self.ret_ty {
+            Some(ty) => RcDoc::space().append(go_type_doc(ty)),
+            None => RcDoc::nil(),
+        };
 
         RcDoc::text("func")
             .append(RcDoc::space())
@@ -389,6 +393,7 @@ impl Method {
             .append(RcDoc::text("("))
             .append(params)
             .append(RcDoc::text(")"))
+            .append(ret_ty)
             .append(RcDoc::space())
             .append(body)
     }
